@@ -181,6 +181,12 @@ def run(chk, prog):
     # collection.get_particle(-1), or the collection's own indexing collection[-1][0] (ParticleCollection.__getitem__ maps v -> v[idx] over (particles, weights):
     # judged for estimate_logpdf above)
     okr = mentions(t, ("call", ("attr", coll_, "get_particle"), (C(-1),), ())) or mentions(t, mk_proj(mk_proj(coll_, -1), 0))
+    if not okr:
+        # the last slot named from the front: index K - 1 with K the particle count of the algorithm whose run_csmc made the collection (SMCAlgorithm's contract:
+        # A.run_csmc returns A.get_num_particles() particles; ChangeTarget.get_num_particles forwards to prev - judged by inlining)
+        K_ = ("call", ("attr", ("attr", SELF, "prev"), "get_num_particles"), (), ())
+        last_ = ("bin", "-", K_, C(1))
+        okr = mentions(t, ("call", ("attr", coll_, "get_particle"), (last_,), ())) or mentions(t, mk_proj(("index", coll_, last_), 0))
     chk.require(okr, "RETAINED-SCORE", "ChangeTarget.run_csmc_for_normalizing_constant", "the retained particle is the LAST one", derived=show(t)[:200], expected="particle_collection.get_particle(-1) / log_weights[-1] (run_csmc stacks the retained particle last)", where=f"{CT.module.rel}:{CT.methods['run_csmc_for_normalizing_constant'].lineno}")
     # ---------------------------------------------------------------- SMCAlgorithm
     SA = prog.cls("SMCAlgorithm", SMC)
